@@ -21,7 +21,8 @@ RULE = ("Rule-based state machine holding one problem (1-2 surveys, default or c
         "the library in other units (yr / h / min, deg, m/s ...) and compares in-memory, cache and file paths within the "
         "effect of a 4-ulp change of the stored values. A history is non-trivial "
         "when a posterior draw or an extreme row preceded a probe and at least two different paths/batchings were "
-        "compared.")
+        "compared."
+        ' Also: rule rej_prefix (first n_prior_samples rows for several batchings, from file and object).')
 SHARDS = {"quick": 4, "thorough": 16}
 BUDGET = {"quick": 80, "thorough": 800}
 
